@@ -411,7 +411,11 @@ pub enum Ev {
     Poll,
     PollEgress,
     /// a datagram frame arrives and the interface is polled
-    Inbound { size: usize, from: Who, matching: bool },
+    /// `ghost`: a datagram that can only "match" a socket WITHOUT a bound endpoint: udp:
+    /// destination port 0 (udp::Socket encodes unbound/closed as port 0); icmp: a port-unreachable
+    /// error quoting a udp datagram of ours (an Ident-bound or unbound socket accepts no errors).
+    /// Never deliverable, in any socket state.
+    Inbound { size: usize, from: Who, matching: bool, ghost: bool },
     /// the ARP reply / neighbor advertisement of B arrives and the interface is polled
     NeighReply,
     /// the next n `transmit()` calls are refused
@@ -515,12 +519,16 @@ impl DgH {
         }
         if rx {
             let s = cfg.sizes();
-            v.push(Ev::Inbound { size: s[0], from: Who::A, matching: true });
-            v.push(Ev::Inbound { size: s[1], from: Who::B, matching: true });
-            v.push(Ev::Inbound { size: s[2], from: Who::A, matching: true });
-            v.push(Ev::Inbound { size: s[3], from: Who::A, matching: true });
-            v.push(Ev::Inbound { size: s[3] + 1, from: Who::B, matching: true });
-            v.push(Ev::Inbound { size: s[1], from: Who::B, matching: false });
+            v.push(Ev::Inbound { size: s[0], from: Who::A, matching: true, ghost: false });
+            v.push(Ev::Inbound { size: s[1], from: Who::B, matching: true, ghost: false });
+            v.push(Ev::Inbound { size: s[2], from: Who::A, matching: true, ghost: false });
+            v.push(Ev::Inbound { size: s[3], from: Who::A, matching: true, ghost: false });
+            v.push(Ev::Inbound { size: s[3] + 1, from: Who::B, matching: true, ghost: false });
+            v.push(Ev::Inbound { size: s[1], from: Who::B, matching: false, ghost: false });
+            if cfg.kind != Kind::Raw {
+                // offered in every socket state: never bound (mix), bound, closed (udp)
+                v.push(Ev::Inbound { size: s[1], from: Who::A, matching: false, ghost: true });
+            }
         }
         if tx {
             v.push(Ev::Refuse(1));
@@ -604,19 +612,31 @@ impl DgH {
     }
 
     /// (frame for the device, bytes recv must return) of an inbound datagram
-    fn inbound_frame(&self, size: usize, from: Who, matching: bool, label: u8) -> (Vec<u8>, Vec<u8>) {
+    fn inbound_frame(&self, size: usize, from: Who, matching: bool, ghost: bool, label: u8) -> (Vec<u8>, Vec<u8>) {
         let v6 = self.cfg.v6;
         let (src, dst) = (self.a(from), self.us());
         let free = data(size - self.cfg.hdr(), label);
         let (packet, expect) = match self.cfg.kind {
             Kind::Udp => {
-                let port = if matching { LOCAL_PORT } else { LOCAL_PORT + 1 };
+                let port = if ghost {
+                    0
+                } else if matching {
+                    LOCAL_PORT
+                } else {
+                    LOCAL_PORT + 1
+                };
                 let u = fr::udp(&src, &dst, REMOTE_PORT + 1, port, &free);
                 (fr::ip(&src, &dst, fr::PROTO_UDP, 64, &u), free)
             }
             Kind::Icmp => {
                 let ident = if matching { ICMP_IDENT } else { 0x4321 };
-                let m = fr::icmp_echo(&src, &dst, true, ident, label as u16, &free);
+                let m = if ghost {
+                    // error about a udp datagram "we" sent from LOCAL_PORT to `from`
+                    let orig = fr::ip(&dst, &src, fr::PROTO_UDP, 64, &fr::udp(&dst, &src, LOCAL_PORT, REMOTE_PORT, &free));
+                    fr::icmp_port_unreachable(&src, &dst, &orig)
+                } else {
+                    fr::icmp_echo(&src, &dst, true, ident, label as u16, &free)
+                };
                 (fr::ip(&src, &dst, if v6 { fr::PROTO_ICMPV6 } else { fr::PROTO_ICMP }, 64, &m), m)
             }
             Kind::Raw => {
@@ -1183,10 +1203,10 @@ impl DgH {
         }
     }
 
-    fn do_inbound(&mut self, size: usize, from: Who, matching: bool, out: &mut Vec<Viol>) {
+    fn do_inbound(&mut self, size: usize, from: Who, matching: bool, ghost: bool, out: &mut Vec<Viol>) {
         let label = self.rx_label;
         self.rx_label += 1;
-        let (frame, expect) = self.inbound_frame(size, from, matching, label);
+        let (frame, expect) = self.inbound_frame(size, from, matching, ghost, label);
         let q0 = self.recv_queue();
         let n0 = if size == 0 { self.rx_packets_queued() } else { 0 };
         let open = self.rx_open();
@@ -1197,11 +1217,19 @@ impl DgH {
             return;
         }
         let q1 = self.recv_queue();
+        // Only a datagram that arrives while the socket is bound (and addressed to that
+        // endpoint) enters the model; close() empties the model. So whatever a later recv/peek
+        // returns - also after a re-bind - is judged against the datagrams that arrived for the
+        // endpoint bound at THEIR arrival; anything else that shows up in the queue (here, via
+        // recv_queue()/can_recv(), or later as recv data: rx-match/unexpected-datagram) is a
+        // violation, whether the socket was never bound, is bound or was closed.
         let eligible = matching && open && size <= self.cfg.cap();
         if !eligible {
             stat(O::InNotEligible);
             if q1 != q0 || (model_empty && self.can_recv()) {
-                let why = if !matching {
+                let why = if ghost {
+                    "unbound-endpoint"
+                } else if !matching {
                     "non-matching"
                 } else if !open {
                     "unbound-socket"
@@ -1660,7 +1688,7 @@ impl Harness for DgH {
                 self.iface.poll_egress(t, &mut self.dev, &mut self.sockets);
                 self.collect(out);
             }
-            Ev::Inbound { size, from, matching } => self.do_inbound(*size, *from, *matching, out),
+            Ev::Inbound { size, from, matching, ghost } => self.do_inbound(*size, *from, *matching, *ghost, out),
             Ev::NeighReply => self.do_neigh_reply(out),
             Ev::Refuse(n) => self.dev.refuse_next = *n,
             Ev::Tick => self.now += 1_000_000,
@@ -1865,7 +1893,7 @@ pub fn run(tier: Tier) -> i32 {
             "receive": "recv_slice(capacity+8), recv_slice(hdr+2), peek, peek_slice(hdr+2) (udp, raw)",
             "socket": "bind(port) / bind(addr,port) / close (udp); bind(Ident) (icmp)",
             "interface": "poll, poll_egress, +1 s, refuse next 1|2 transmit() calls",
-            "inbound": "matching endpoint, sizes hdr, hdr+1, hdr+3, capacity, capacity+1 from A/B; non-matching port/ident/protocol; each followed by poll",
+            "inbound": "matching endpoint, sizes hdr, hdr+1, hdr+3, capacity, capacity+1 from A/B; non-matching port/ident/protocol; udp: destination port 0, icmp: port-unreachable error (can only match a socket without endpoint; must never be queued, whether the socket was never bound, is bound or was closed); each followed by poll",
             "neighbor": "ARP reply / neighbor advertisement of B when a request is pending",
             "drain": "lift back-pressure, answer requests, poll to quiescence, tx liveness verdict"
         }),
